@@ -47,7 +47,13 @@ RULE = (
     'VAR-LIST without its padding (trailing blanks stripped 1/8, names '
     'separated by single blanks 1/8); '
     'for the disk route the state is applied before saving; the reference '
-    'is always the source\'s own getTimes().  Non-trivial: >= 2 '
+    'is always the source\'s own getTimes().  One source in four with >= 3 '
+    'steps has an uneven time axis (a prior sliceDimensions(TSTEP=index '
+    'list), or two windows of the file stacked with a gap); every retained '
+    'step must keep its own flag, TSTEP\' is not judged there.  XORIG/YORIG '
+    'are stored as float, Python int, np.int32, np.int64 or np.float32 '
+    '(integer types with whole-number values) and the cells as float or '
+    'np.float32, cells being fractional in general.  Non-trivial: >= 2 '
     'dimensions windowed, or a negative int, or a window touching either '
     'edge of its dimension without covering it, or a retained time range '
     'lying on more than one date.  Distinct by sha1 of the case spec.  In '
@@ -80,7 +86,7 @@ def windows(draw, n):
 
 @st.composite
 def cases(draw, tier='quick'):
-    fs = draw(I.ioapispecs())
+    fs = draw(I.ioapispecs(origin_types=True))
     # a 16-character name followed by another name makes the *source*
     # incoherent (finding C10-name16-split); that is C10's subject, so here
     # such a name is kept only in last position
@@ -89,7 +95,11 @@ def cases(draw, tier='quick'):
     if len(set(vs)) < len(vs):
         vs = ['V%d' % i for i in range(len(vs))]
     fs = dict(fs, vars=vs)
-    dlen = dict(TSTEP=fs['nt'], LAY=fs['nz'])
+    # source state first: an uneven time axis (prior index-list selection,
+    # two runs stacked with a gap) changes the number of steps
+    prep = draw(I.preps(fs, uneven=True))
+    tidx = I.prep_time_index(fs, prep)
+    dlen = dict(TSTEP=len(tidx), LAY=fs['nz'])
     if fs['ftype'] == 1:
         dlen['ROW'], dlen['COL'] = fs['ny'], fs['nx']
     names = sorted(dlen)
@@ -98,11 +108,13 @@ def cases(draw, tier='quick'):
     if fs.get('crossing') and 'TSTEP' not in chosen and draw(st.booleans()):
         chosen = list(chosen) + ['TSTEP']
     win = [[d] + draw(windows(dlen[d])) for d in chosen]
-    if 'TSTEP' in chosen and fs['nt'] >= 2 and draw(st.integers(0, 2)) > 0:
+    if 'TSTEP' in chosen and len(tidx) >= 2 and \
+            draw(st.integers(0, 2)) > 0:
         # two thirds of the time windows keep >= 2 steps; in files built to
         # cross midnight they contain the crossing
-        nt = fs['nt']
-        times = I.model(fs).times
+        nt = len(tidx)
+        alltimes = I.model(fs).times
+        times = [alltimes[i] for i in tidx]
         cross = [i for i in range(1, nt)
                  if times[i].date() != times[i - 1].date()]
         if cross and draw(st.booleans()):
@@ -115,7 +127,7 @@ def cases(draw, tier='quick'):
         lo, hi = I.spell_slice(draw, a, b, nt)
         win = [w if w[0] != 'TSTEP' else ['TSTEP', 'slice', [lo, hi, None]]
                for w in win]
-    return dict(file=fs, win=win, prep=draw(I.preps(fs)))
+    return dict(file=fs, win=win, prep=prep)
 
 
 def strategy(tier):
@@ -241,7 +253,11 @@ def _check(case, fs, m, f, r):
     r.label('route:' + fs['route'], 'ftype:%d' % fs['ftype'])
     prep = I.prep_kind(case.get('prep'))
     r.label('prep:' + prep)
-    dlen = dict((d, m.dims[d]) for d in win)
+    tidx = I.prep_time_index(fs, case.get('prep'))
+    mtimes = [m.times[i] for i in tidx]
+    mtflag = m.tflag[tidx]
+    uneven = prep.startswith('uneven')
+    dlen = dict((d, (len(tidx) if d == 'TSTEP' else m.dims[d])) for d in win)
     rng = dict((d, bounds(dlen[d], *win[d])) for d in win)
     # ---- labels / non-triviality
     nt = len(win) >= 2
@@ -273,11 +289,11 @@ def _check(case, fs, m, f, r):
     crosses = False
     if 'TSTEP' in win:
         i0, i1, cnt = rng['TSTEP']
-        crosses = m.crosses_day(i0, i1)
+        crosses = len(set(t.date() for t in mtimes[i0:i1 + 1])) > 1
         if crosses:
             r.label('time-window-crosses-day')
             nt = True
-            if m.times[i0].year != m.times[i1].year:
+            if mtimes[i0].year != mtimes[i1].year:
                 r.label('time-window-crosses-year')
         r.label('steps-kept:%s' % ('1' if cnt == 1 else '2+'))
     if fs['tstep'] >= 240000:
@@ -307,7 +323,7 @@ def _check(case, fs, m, f, r):
         # decoded times are the reference
         src_tflag = np.array([[I.yyyyjjj(t), I.hhmmss(t)]
                               for t in src_times], dtype='i8')
-    if src_tflag.shape != m.tflag.shape or not (src_tflag == m.tflag).all():
+    if src_tflag.shape != mtflag.shape or not (src_tflag == mtflag).all():
         # construction problem, not a windowing problem: C12's business
         r.label('source-tflag-differs-from-model')
     kw = I_OD((d, to_sel(win[d][0], win[d][1], ity.get(d, 'py')))
@@ -380,7 +396,14 @@ def _check(case, fs, m, f, r):
             r.fail('start-vs-tflag', 'SDATE, STIME = %r, %r but TFLAG[0,0] of'
                    ' the window = %r' % (sd, stt, otf[0, 0].tolist()),
                    klass=('windowed' if 'TSTEP' in win else 'untouched'))
-    if cnt >= 2 or 'TSTEP' not in win:
+    if uneven and 'TSTEP' in win and i0 + 1 <= i1:
+        gaps = set(tidx[k + 1] - tidx[k] for k in range(i0, i1))
+        if len(gaps) > 1:
+            r.label('uneven-interval-inside-window')
+            if tidx[i0 + 1] - tidx[i0] != tidx[i1] - tidx[i1 - 1]:
+                r.label('uneven-after-first-interval')
+    # on an uneven axis no single TSTEP describes the window: not judged
+    if (cnt >= 2 or 'TSTEP' not in win) and not uneven:
         ts = getattr(out, 'TSTEP', None)
         if ts is None or int(ts) != int(src['TSTEP']):
             r.fail('tstep', 'TSTEP = %r after keeping %d steps of a file '
